@@ -447,7 +447,8 @@ func (r *Runtime) arrayproto_splice(call FunctionCall) Value {
 		panic(r.NewTypeError("Invalid array length"))
 	}
 	a := arraySpeciesCreate(o, actualDeleteCount)
-	if src := r.checkStdArrayObj(o); src != nil {
+	// growing needs a writable length and an extensible array: leave the failure to the generic path
+	if src := r.checkStdArrayObj(o); src != nil && (newLength <= length || src.lengthProp.writable && src.extensible) {
 		if dst := r.checkStdArrayObjWithProto(a); dst != nil {
 			values := make([]Value, actualDeleteCount)
 			copy(values, src.values[actualStart:])
